@@ -1,31 +1,16 @@
-"""Per-property configuration of ./check (protocol keyword, shrinking header, evidence texts)."""
+"""Per-property configuration of ./check.  One file per property: tools/props/Cxx.py defining CFG (see C04.py)."""
+import importlib.util, os, re
 
-def _c04_nontrivial(req, impl):
-    # at least one mutator changed the store and one observer returned a non-empty answer
-    toks = impl.split(" ")
-    return "t" in toks and any(t.startswith("[") and len(t) > 2 for t in toks) or (toks and toks[-1].isdigit() and "t" in toks)
-
+HERE = os.path.dirname(os.path.abspath(__file__))
+# commits in /repo that add cfg(kolibrie_verif)-guarded hooks (MANIFEST.hooks.source_commits)
 HOOK_COMMITS = []
+# properties deliberately not claimed, with the reason (MANIFEST.not_applicable)
 NOT_APPLICABLE = {}
 
-PROPS = {
-    "C04": {
-        "kw": "store", "header_len": 3,
-        "rule": "requests are operation histories over the store API (insert/delete/create/clear/drop/clear-all/rebuild "
-                "interleaved with every observer); exhaustive part: one history per distinct abstract state reachable "
-                "within the tier's depth over 4 triples x 3 graphs, followed by every operation and a full observation "
-                "(all 27 lookup shapes x 4 graphs, named/merged/quads variants, membership of all universe quads, graph "
-                "listing); random part: histories of length <= 60 (quick) / 400 (thorough) over <= 6 terms x <= 4 graphs. "
-                "non-trivial = some mutator returned true and some observer returned a non-empty answer; distinct = distinct request lines",
-        "nontrivial": _c04_nontrivial,
-        "level_text": "Refinement proof: for every finite operation history the four indexes stay consistent (invariant by induction), "
-                      "the denoted quad set and graph catalog equal the abstract specification's, every call returns the specified Boolean, and every "
-                      "read path (8 lookup shapes per graph, named-graph lookup with/without visibility set, all-graph lookup, merged lookup, membership, "
-                      "graphs-for-triple, graph listing, full dump, rebuild) returns exactly the matching quads, each once. The model is tied to the Rust code by "
-                      "running both on generated and exhaustively enumerated histories and comparing every return value and observation.",
-        "level_note": "Trusted: Lean kernel; the hand-written model (Model/Store.lean) corresponds to dataset_index.rs only as far as the differential run shows; "
-                      "HashMap/HashSet modelled as duplicate-free lists, u32 as Nat; serde-deserialised legacy indexes are outside the model.",
-        "trusted": ["HashMap/HashSet modelled as duplicate-free lists; u32 ids as Nat (no overflow)"],
-        "assumptions": ["ids < 2^32", "the store is used through DatasetIndex's public API and SparqlDatabase::build_all_indexes only (no deserialised legacy index)"],
-    },
-}
+PROPS = {}
+for f in sorted(os.listdir(os.path.join(HERE, "props"))):
+    if re.fullmatch(r"C\d\d\.py", f):
+        spec = importlib.util.spec_from_file_location("prop_" + f[:-3], os.path.join(HERE, "props", f))
+        mod = importlib.util.module_from_spec(spec)
+        spec.loader.exec_module(mod)
+        PROPS[f[:-3]] = mod.CFG
